@@ -158,6 +158,22 @@ C11OK(e) ==
   /\ e.act = "OptStep" => GradsOK(e)
   /\ e.act = "Forward" => ForwardRecipesOK(e)                         \* every forward uses the current weights
 
+\* straight-through gradients of one module against its float twin (same upstream gradient)
+GradVecOK(g, n, fmt) ==
+  g.missing \/ (/\ g.shape_ok /\ g.dtype_ok
+                 /\ \A k \in 1..Len(g.got) :
+                      /\ g.got[k].s # 2 /\ g.ref[k].s # 2
+                      /\ BLe(SDist(g.got[k], g.ref[k]),
+                             BAdd(BAdd(IF 4 * (n + 4) < 2^PBits(fmt) THEN URel(g.absref[k].m, 2 * (n + 4), PBits(fmt)) ELSE g.absref[k].m,
+                                       URel(SAbs(g.ref[k]), 4, PBits(fmt))), <<1>>)))
+GradOK(e) ==
+  LET c == e.case IN
+  /\ e.outcome = "ok"
+  /\ e.x_has_grad /\ ~e.scale_has_grad
+  /\ (c.frozen => ~e.w_has_grad) /\ (~c.frozen => e.w_has_grad /\ ~e.gw.missing)
+  /\ (c.bias => e.b_has_grad)
+  /\ GradVecOK(e.gx, e.terms, c.dtype) /\ (~c.frozen => GradVecOK(e.gw, e.terms, c.dtype)) /\ (c.bias => GradVecOK(e.gb, e.terms, c.dtype))
+
 (* ======================== C12: calibration scales ========================================================== *)
 \* |after - (m*before + (1-m)*new)| <= 6u max(before, new)   with m = mm / 2^30
 EmaOK(before, new, after, mm, fmt) ==
@@ -260,7 +276,7 @@ TStart == /\ Is("Init") /\ l' = l + 1
 TCrash == /\ Is("Crash") /\ FALSE /\ UNCHANGED <<tid, l, dev, open, base, upd, qargs>>
 
 TStep ==
-  /\ l <= Len(Tr[tid]) /\ Ev.act \notin {"Init", "Crash"}
+  /\ l <= Len(Tr[tid]) /\ Ev.act \notin {"Init", "Crash", "Grad"}
   /\ open' = OpenAfter(Ev)
   /\ qargs' = CASE Ev.act = "EnterCalib" /\ Ev.outcome = "ok" -> [ms |-> Append(qargs.ms, Ev.args.momentum)]
                  [] Ev.act = "ExitCalib" /\ Ev.outcome = "ok" /\ qargs.ms # <<>> -> [ms |-> SubSeq(qargs.ms, 1, Len(qargs.ms) - 1)]
@@ -271,7 +287,13 @@ TStep ==
   /\ upd' = UpdAfter(Ev)
   /\ l' = l + 1 /\ UNCHANGED <<tid, base>>
 
-TNext == TStart \/ TStep
+TGrad == /\ Is("Grad") /\ l' = l + 1
+         /\ \/ (GradOK(Ev) = TRUE /\ dev' = dev)
+            \/ (Dev_C07_F16Float8Act /\ (~GradOK(Ev) /\ Ev.case.dtype = "float16" /\ Ev.case.aq \in {"qfloat8", "qfloat8_e4m3fn", "qfloat8_e5m2"}) = TRUE
+                /\ dev' = dev \cup {"Dev_C07_F16Float8Act"})
+         /\ UNCHANGED <<tid, open, base, upd, qargs>>
+
+TNext == TStart \/ TStep \/ TGrad
 Record == TLCSet(tid, <<l, dev>>)
 SetSeq(S) == LET RECURSIVE H(_) H(T) == IF T = {} THEN <<>> ELSE LET x == CHOOSE x \in T : TRUE IN <<x>> \o H(T \ {x}) IN H(S)
 Post == \A t \in 1..Len(Tr) :
